@@ -516,8 +516,8 @@ v("C02", "stream-no-ok-rewrite", "httpgrpc/server.go",
 			statProto := st.Proto()
 			tr.Code = statProto.Code""", "R2", "ok-rewrite", "stream sibling lost the OK→Internal rewrite")
 v("C02", "trailer-drops-details", "httpgrpc/server.go",
-  """			tr.Message = statProto.Message
-			tr.Details = statProto.Details""", """			tr.Message = statProto.Message""", "R3", "to-HttpTrailer", "details never sent for streams")
+  """			tr.Details = statProto.Details
+""", "", "R3", "to-HttpTrailer", "details never sent for streams")
 v("C02", "client-drops-message", "httpgrpc/client.go",
   """		cs.tr.Code = statProto.Code
 		cs.tr.Message = statProto.Message
@@ -1531,6 +1531,9 @@ silent_all("probe-as-switch", [
 	if err == nil {
 		s.last = &frame{err: status.Error(codes.Internal, "method should return 1 response message but server sent >1")}
 		s.state = streamStateClosed
+		// we won't be reading from the channel anymore, so we must cancel the
+		// context so that the server doesn't hang trying to send more messages
+		s.cancel()
 		return s.last.err
 	}
 	if err != io.EOF {
@@ -1541,6 +1544,7 @@ silent_all("probe-as-switch", [
 	case nil:
 		s.last = &frame{err: status.Error(codes.Internal, "method should return 1 response message but server sent >1")}
 		s.state = streamStateClosed
+		s.cancel()
 		return s.last.err
 	case io.EOF:
 		return nil
@@ -2633,7 +2637,7 @@ v("C06", "cloner-setter-keeps-first", "inprocgrpc/in_process.go",
   "\tc.cloner = cloner\n\treturn c", "\tif c.cloner == nil {\n\t\tc.cloner = cloner\n\t}\n\treturn c", "R10", "setter",
   "a second WithCloner is silently ignored: the channel keeps copying with the first cloner")
 v("C12", "base-path-option-rewrites", "httpgrpc/server.go",
-  "\t\ts.basePath = path\n", "\t\ts.basePath = path + \"/\"\n", "R8", "reachable",
+  "\t\ts.basePath = path\n", "\t\ts.basePath = path + \"/\"\n", "R8", "setter",
   "the base path stored is not the one configured")
 v("C12", "default-base-path-after-options", "httpgrpc/server.go",
   "\ts.basePath = \"/\"\n\ts.handlers = grpchan.HandlerMap{}\n\tfor _, o := range opts {\n\t\to.apply(&s)\n\t}\n", "\ts.handlers = grpchan.HandlerMap{}\n\tfor _, o := range opts {\n\t\to.apply(&s)\n\t}\n\ts.basePath = \"/\"\n", "R8", "default-before-options",
@@ -2776,6 +2780,23 @@ v("C03", "unary-fan-out-twice", "httpgrpc/client.go",
 v("C19", "go-file-import-path-cleaned", "cmd/protoc-gen-grpchan/protoc-gen-grpchan.go",
   "gopoet.NewGoFile(path.Base(filename), pkg.ImportPath, pkg.Name)", "gopoet.NewGoFile(path.Base(filename), path.Clean(pkg.ImportPath), pkg.Name)", "R2", "file-package-identity",
   "the file's own package path is normalised: its own types become foreign for go_package values like ./;pkg")
+
+# ------------------------------------------------------------------ D21 (known), D23
+v("C02", "d23-trailer-message-unsanitised", "httpgrpc/server.go",
+  "			tr.Message = strings.ToValidUTF8(statProto.Message, \"\\uFFFD\")", "			tr.Message = statProto.Message", "R3", "trailer-message-valid-utf8",
+  "pre-fix D23: a status message that is not valid UTF-8 makes the trailer frame unmarshallable",
+  edits=[{"file": "httpgrpc/server.go", "old": "			tr.Message = strings.ToValidUTF8(statProto.Message, \"\\uFFFD\")", "new": "			tr.Message = statProto.Message"},
+         {"file": "httpgrpc/server.go", "old": "	\"strings\"\n", "new": ""}])
+v("C02", "silent-d21-repaired-with-percent-encoding", "httpgrpc/server.go",
+  "x", "y", silent=True, why="the repaired form of the known finding D21: the message is percent-encoded into the header and decoded by the client",
+  edits=[{"file": "httpgrpc/server.go", "old": "fmt.Sprintf(\"%d:%s\", statProto.Code, statProto.Message)", "new": "fmt.Sprintf(\"%d:%s\", statProto.Code, url.PathEscape(statProto.Message))"},
+         {"file": "httpgrpc/server.go", "old": "	\"net/http\"\n", "new": "	\"net/http\"\n	\"net/url\"\n"},
+         {"file": "httpgrpc/client.go", "old": "			msg = codeStrs[1]", "new": "			if m, uerr := url.PathUnescape(codeStrs[1]); uerr == nil {\n				msg = m\n			} else {\n				msg = codeStrs[1]\n			}"}])
+v("C09", "deadline-context-dropped", "httpgrpc/server.go",
+  "				ctx, cancel = context.WithTimeout(ctx, d)\n", "				_, cancel = context.WithTimeout(ctx, d)\n", "R5", "deadline",
+  "the timeout context is created but the context without it is returned")
+v("C12", "base-path-option-appends-slash", "httpgrpc/server.go",
+  "		s.basePath = path\n", "		s.basePath = path + \"/\"\n", "R8", "setter", "the base path stored is not the one configured")
 
 
 def main():
